@@ -82,6 +82,7 @@ def run(prog, chk):
     chk.rule(strops.blank_only_separators, prog, chk)  # a pair / list cut at blanks is cut at tabs and newlines too
     chk.rule(strops.empty_test_before_trim, prog, chk)  # pieces are tested for emptiness after trimming, not before
     chk.rule(strops.check_number_formatting, prog, chk)  # results are exact up to the 3-decimal *output* rounding  # A14.str-ops: how this property's strings are cut up is a reviewed, frozen inventory
+    chk.rule(comma_wsp, prog, chk)
 
 
 def _derives_from_get_attr(body, op, key, depth=8):
@@ -488,3 +489,25 @@ def formatter_cast_guarded(prog, chk):
                 continue  # the cast inside the guard itself
             ok = ok and b.dominates(gt, x)
     chk.ob(ok, "A7.formatter-cast", "fstr", b.where(), "the integer form is printed only when `x == (x as i32) as f32` holds", "fstr prints `(x as i32)` without the round-trip guard `x == (x as i32) as f32`: whole numbers of magnitude >= 2^31 are written as 2147483647 / -2147483648")
+
+
+
+def comma_wsp(prog, chk):
+    """the separator between two numbers of path data is `comma-wsp ::= (wsp+ comma? wsp*) | (comma wsp*)` (SVG 1.1
+    8.3.9): white space may follow the comma.  In the path tokenizer's separator skipper every path on which the comma
+    is consumed passes the white-space skipper again before it returns - `M 1, 2` is as good as `M 1,2`"""
+    cands = [b for b in prog.bodies.values() if b.unit == "svgdx-lib" and b.path.startswith("svgdx::path::") and b.path.split("::")[-1] == "skip_wsp_comma"]
+    if not cands:
+        chk.anchor_missing("A16.comma-wsp", "the separator skipper of the path tokenizer (skip_wsp_comma) was not found")
+        return
+    n = 0
+    for b in cands:
+        chk.touch(b)
+        adv = b.call_sites(lambda c: c.path.split("::")[-1] == "advance" and c.path.startswith("svgdx::path::"))
+        wsp = [(bb, R.TERM) for (bb, t, c) in b.call_sites(lambda c: c.path.split("::")[-1] == "skip_whitespace" and c.path.startswith("svgdx::path::"))]
+        for (bb, t, c) in adv:
+            n += 1
+            esc = R.escapes(b, (bb, R.TERM), wsp)
+            chk.ob(not esc, "A16.comma-wsp", f"{b.short}:after-comma", b.where(bb, t.get("line")), "white space after the comma is skipped with it", f"{b.short} consumes the comma and returns without skipping the white space that may follow it: `d=\"M 1, 2 L 3, 4\"` - valid path data - leaves the blank in front of the next number, which then fails to parse")
+    if not n:
+        chk.undecided("A16.comma-wsp", "skip_wsp_comma", cands[0].where(), "how the comma is consumed in the separator skipper (no advance() call) is not read here")
